@@ -9,19 +9,46 @@ import (
 	"fmt"
 	"os"
 	"path/filepath"
+	"sort"
 	"strings"
 )
 
-const c16Rules = "top: expr expr: LPAREN expr RPAREN | expr LAND expr | expr LOR expr | NOT expr | callExpr | IDENT " +
-	"callExpr: IDENT LPAREN paramlist RPAREN | IDENT LPAREN RPAREN paramlist: BASICLIT | paramlist COMMA BASICLIT"
+// the grammar the Lean parser models: nonterminal -> alternatives (start symbol first)
+var c16Want = map[string][]string{
+	"top":       {"expr"},
+	"expr":      {"LPAREN expr RPAREN", "expr LAND expr", "expr LOR expr", "NOT expr", "callExpr", "IDENT"},
+	"callExpr":  {"IDENT LPAREN paramlist RPAREN", "IDENT LPAREN RPAREN"},
+	"paramlist": {"BASICLIT", "paramlist COMMA BASICLIT"},
+}
 
-// c16StripActions removes { ... } blocks (nested) and comments.
+// c16StripActions removes { ... } blocks (nested; quotes inside actions respected) and /* */, // comments.
 func c16StripActions(s string) string {
 	var b strings.Builder
 	depth := 0
 	for i := 0; i < len(s); i++ {
 		c := s[i]
 		switch {
+		case c == '/' && i+1 < len(s) && s[i+1] == '/':
+			for i < len(s) && s[i] != '\n' {
+				i++
+			}
+			b.WriteByte('\n')
+		case c == '/' && i+1 < len(s) && s[i+1] == '*':
+			i += 2
+			for i+1 < len(s) && !(s[i] == '*' && s[i+1] == '/') {
+				i++
+			}
+			i++
+			b.WriteByte(' ')
+		case depth > 0 && (c == '"' || c == '\'' || c == '`'):
+			q := c
+			i++
+			for i < len(s) && s[i] != q {
+				if s[i] == '\\' && q != '`' {
+					i++
+				}
+				i++
+			}
 		case c == '{':
 			depth++
 		case c == '}':
@@ -33,6 +60,102 @@ func c16StripActions(s string) string {
 		}
 	}
 	return b.String()
+}
+
+// c16ParseRules parses the (action-free) rule section into nonterminal -> alternatives; start = first rule.
+func c16ParseRules(src string) (map[string][]string, string, error) {
+	src = strings.NewReplacer(":", " : ", "|", " | ", ";", " ; ").Replace(src)
+	toks := strings.Fields(src)
+	rules := map[string][]string{}
+	start, cur := "", ""
+	var alt []string
+	flush := func() {
+		if cur != "" {
+			rules[cur] = append(rules[cur], strings.Join(alt, " "))
+		}
+		alt = nil
+	}
+	for i := 0; i < len(toks); i++ {
+		t := toks[i]
+		switch {
+		case i+1 < len(toks) && toks[i+1] == ":":
+			flush()
+			cur = t
+			if start == "" {
+				start = t
+			}
+			i++
+		case t == "|":
+			flush()
+		case t == ";":
+			flush()
+			cur = ""
+		case cur == "":
+			return nil, "", fmt.Errorf("token %q outside a rule", t)
+		default:
+			alt = append(alt, t)
+		}
+	}
+	flush()
+	return rules, start, nil
+}
+
+// c16SameGrammar: equal up to the order of alternatives / rules and the names of the nonterminals.
+func c16SameGrammar(got map[string][]string, start string) bool {
+	if len(got) != len(c16Want) {
+		return false
+	}
+	var gn, wn []string
+	for k := range got {
+		if k != start {
+			gn = append(gn, k)
+		}
+	}
+	for k := range c16Want {
+		if k != "top" {
+			wn = append(wn, k)
+		}
+	}
+	sort.Strings(gn)
+	sort.Strings(wn)
+	canon := func(alts []string, ren map[string]string) string {
+		var out []string
+		for _, a := range alts {
+			f := strings.Fields(a)
+			for i, t := range f {
+				if r, ok := ren[t]; ok {
+					f[i] = r
+				}
+			}
+			out = append(out, strings.Join(f, " "))
+		}
+		sort.Strings(out)
+		return strings.Join(out, " | ")
+	}
+	var try func(k int, ren map[string]string, used map[string]bool) bool
+	try = func(k int, ren map[string]string, used map[string]bool) bool {
+		if k == len(gn) {
+			for g, w := range ren {
+				if canon(got[g], ren) != canon(c16Want[w], nil) {
+					return false
+				}
+			}
+			return true
+		}
+		for _, w := range wn {
+			if !used[w] {
+				used[w] = true
+				ren[gn[k]] = w
+				if try(k+1, ren, used) {
+					return true
+				}
+				delete(ren, gn[k])
+				used[w] = false
+			}
+		}
+		return false
+	}
+	return try(0, map[string]string{start: "top"}, map[string]bool{})
 }
 
 func init() {
@@ -51,29 +174,42 @@ func init() {
 		if strings.Contains(rules, "%prec") {
 			return "", fmt.Errorf("%s: %%prec is not modelled", rel)
 		}
-		norm := strings.Join(strings.Fields(c16StripActions(rules)), " ")
-		if norm != c16Rules {
-			return "", fmt.Errorf("%s: grammar rules changed:\n got  %q\n want %q", rel, norm, c16Rules)
+		got, start, err := c16ParseRules(c16StripActions(rules))
+		if err != nil {
+			return "", fmt.Errorf("%s: %v", rel, err)
+		}
+		if !c16SameGrammar(got, start) {
+			return "", fmt.Errorf("%s: grammar rules changed (not the modelled expression grammar up to renaming / reordering): %v", rel, got)
 		}
 		// precedence lines
 		var lines []string
 		seen := map[string]bool{}
 		for _, l := range strings.Split(decl, "\n") {
+			for _, cm := range []string{"//", "/*"} {
+				if k := strings.Index(l, cm); k >= 0 {
+					l = l[:k]
+				}
+			}
 			f := strings.Fields(l)
 			if len(f) == 0 {
 				continue
 			}
 			switch f[0] {
 			case "%left", "%right":
+				// canonical fact: only the operator tokens of the modelled grammar, lines without one are dropped
 				var toks []string
 				for _, t := range f[1:] {
 					if seen[t] {
 						return "", fmt.Errorf("%s: token %s has two precedence declarations", rel, t)
 					}
 					seen[t] = true
-					toks = append(toks, leanStr(t))
+					if t == "LAND" || t == "LOR" || t == "NOT" {
+						toks = append(toks, leanStr(t))
+					}
 				}
-				lines = append(lines, fmt.Sprintf("(%s, [%s])", leanStr(f[0][1:]), strings.Join(toks, ", ")))
+				if len(toks) > 0 {
+					lines = append(lines, fmt.Sprintf("(%s, [%s])", leanStr(f[0][1:]), strings.Join(toks, ", ")))
+				}
 			case "%nonassoc", "%precedence", "%binary":
 				return "", fmt.Errorf("%s: directive %s is not modelled", rel, f[0])
 			}
